@@ -178,6 +178,24 @@ def main(tier):
             nacc += len(u[1])
         else:
             ck.report('well-typed-rejected=unit%d' % u[0], 'well-typed unit rejected (rc %s): %s' % (r.rc, r.text()[-700:]), files={'u.as': progrun.unit_text(u)})
+    # well-typed twins of the nested-`free` faults: the same shapes with a variable instead of a constant must be accepted
+    twins = [(k.replace('assignment-to-constant', 'assignment-to-variable'), t.replace('kc: MachineInteger == 5', 'kc: MachineInteger := 5'))
+             for k, t in _nested_free_faults()]
+
+    def accept_twin(kt):
+        k, t = kt
+        d = mkdir('%s/t-%s' % (ck.work, k))
+        text = progspace.PRELUDE + t.replace('@K@', '0') + 'c0();\n'
+        write(d + '/m.as', text)
+        r = tc.aldor(['-Q1', '-Fao', 'm.as'], d, timeout=120)
+        ok = r.rc == 0 and os.path.exists(d + '/m.ao') and not faults.error_printed(r.text())
+        return k, text, ok, r
+    for k, text, ok, r in pmap(accept_twin, twins):
+        ck.count(1)
+        if ok:
+            nacc += 1
+        else:
+            ck.report('well-typed-rejected=%s' % k, 'well-typed program rejected (rc %s): %s' % (r.rc, r.text()[-700:]), files={'m.as': text})
     # ---- rejected side --------------------------------------------------------------------------------
     byfam = {}
     for f, c in cases:
